@@ -560,6 +560,12 @@ def m_contains_pred(it, s, f):
     for c in deref_all(s).chars:
         if B(it, it.call_closure(f, c)): return True
     return False
+@model(r'core::str::<impl str>::contains::<(&\[char\]|\[char; \d+\]|&\[char; \d+\])>')
+def m_contains_chars(it, s, pats):
+    ps = list(deref_all(pats))
+    for c in deref_all(s).chars:
+        if B(it, zor(*[c == p_ for p_ in ps])): return True
+    return False
 def find_sub(it, hay, nee, start=0):
     n, m = len(hay), len(nee)
     for i in range(start, n - m + 1):
